@@ -169,7 +169,11 @@ func runC38(c *an.Ctx) {
 	if cp := mustFunc(c, acct+".(*ClientImpl).ChangePassword"); cp != nil {
 		var dec, enc ssa.CallInstruction
 		var set []ssa.CallInstruction
-		for _, k := range an.Calls(cp) {
+		var cpCalls []ssa.CallInstruction
+		for _, g := range an.InlineReach(cp) {
+			cpCalls = append(cpCalls, an.Calls(g)...)
+		}
+		for _, k := range cpCalls {
 			if f := k.Common().StaticCallee(); f != nil {
 				switch f.Name() {
 				case "DecryptWithCustomScrypt":
@@ -194,12 +198,15 @@ func runC38(c *an.Ctx) {
 			}
 			newSecret := an.Extracts(enc.Value())[0]
 			okSet := false
+			// what is stored first is the new secret - directly, or as what the re-encryption helper returned
 			for _, e := range newSecret {
-				if set[0].Common().Args[1] == ssa.Value(e) {
-					okSet = true
+				for _, d := range an.Deref(cp, set[0].Common().Args[1]) {
+					if d == ssa.Value(e) {
+						okSet = true
+					}
 				}
 			}
-			ok = okPrv && okSet && dec.Common().Args[1] == ssa.Value(cp.Params[2]) && enc.Common().Args[2] == ssa.Value(cp.Params[3])
+			ok = okPrv && okSet && an.ResolveActual(cp, dec.Common().Args[1]) == ssa.Value(cp.Params[2]) && an.ResolveActual(cp, enc.Common().Args[2]) == ssa.Value(cp.Params[3])
 			why = "the re-encrypted key is not the key decrypted with the old password, or it is not what is stored"
 		}
 		c.Check(ok, "pair|ChangePassword|reencrypts-same-key", "ChangePassword stores the key that was decrypted with the old password, encrypted under the new one", c.P.Rel(cp.Pos()), why)
